@@ -40,22 +40,20 @@ Fixpoint app (s : subst) (t : ty) : ty :=
 
 (** The idempotent closure sigma*: substitute until no solved variable is left
     (what repeated `substitute` converges to).  Fuel-indexed; None = out of fuel. *)
+Fixpoint opt_list {A} (l : list (option A)) : option (list A) :=
+  match l with
+  | [] => Some []
+  | Some x :: r => option_map (cons x) (opt_list r)
+  | None :: _ => None
+  end.
+
 Fixpoint resolve (n : nat) (s : subst) (t : ty) : option ty :=
   match n with
   | O => None
   | S n' =>
       match t with
       | Ex x => match lookup s x with Some u => resolve n' s u | None => Some (Ex x) end
-      | Nd h a =>
-          option_map (Nd h)
-            ((fix go (a : list ty) : option (list ty) :=
-                match a with
-                | [] => Some []
-                | u :: a' => match resolve n' s u, go a' with
-                             | Some v, Some r => Some (v :: r)
-                             | _, _ => None
-                             end
-                end) a)
+      | Nd h a => option_map (Nd h) (opt_list (map (resolve n' s) a))
       end
   end.
 
